@@ -43,7 +43,7 @@ def _snapshot_views(proc):
 
 
 def run_with_crashes(make_proc, crash_points, resume_for_wait, transport=None, budget=4000, max_restores=64, persister=None, lag=0, resume_mode='plain',
-                     exit_crashes=(), other_loop_current=False):
+                     exit_crashes=(), other_loop_current=False, paused_crashes=()):
     """make_proc(loop) -> process.  resume_for_wait(j) -> list of resume args for the j-th wait (0-based).
 
     transport(bundle) -> bundle: how the snapshot travels (default: pickle round trip).
@@ -52,6 +52,8 @@ def run_with_crashes(make_proc, crash_points, resume_for_wait, transport=None, b
     (the real API instead of a Bundle made by the harness); the instance that wrote the checkpoint then runs on for
     ``lag`` more boundaries before it is abandoned -- that work is lost and has to be done again by the restored run."""
     crash_points = set(crash_points)
+    paused_crashes = set(paused_crashes)
+    want_paused = [False]
     exit_crashes = set(exit_crashes)  # indices of "a RUNNING state is being left" events (the step has returned, the next state is
     exits = [0]                       # not entered yet) at which a checkpoint is taken and the instance abandoned
     lagging = [None]  # [index of the checkpoint boundary, boundaries still to run before the crash]
@@ -141,6 +143,27 @@ def run_with_crashes(make_proc, crash_points, resume_for_wait, transport=None, b
                         log.append(['checkpoint', idx, to, len(p.trace)])
 
             rec.hooks['entered'] = entered
+
+            def paused_hook(p):
+                # "persist when paused": the checkpoint is written from the paused hook of a pause that was requested while the step
+                # before was in flight, and the instance is abandoned there
+                if want_paused[0] and not crash[0]:
+                    want_paused[0] = False
+                    at_checkpoint[0] = _snapshot_views(p)
+                    snapshot[0] = plumpy.Bundle(p, dereference=isinstance(p, plumpy.ContextMixin))
+                    crash[0] = True
+                    log.append(['checkpoint-in-paused-hook', len(p.trace), p.state.value])
+
+            rec.hooks['paused'] = paused_hook
+
+            def step_hook(p, i):
+                # the pause is requested from inside step i (the step is in flight), once
+                if i in paused_crashes and not crash[0] and lagging[0] is None:
+                    paused_crashes.discard(i)
+                    want_paused[0] = True
+                    p.pause('for-checkpoint')
+
+            rec.hooks['step'] = step_hook
             task = drv.loop.create_task(proc.step_until_terminated())
             incon = None
             try:
